@@ -20,7 +20,7 @@ ASSUMPTIONS = ["PARTIAL: atomicity and sequential consistency of AtomicU32::fetc
                "fewer than 2^32 allocations per process"]
 LEVEL_TEXT = ("PARTIAL. Machine-checked proof (Lean 4) over a model of threads as sequences of atomic operations on one counter: for every "
               "interleaving, single-RMW allocations return distinct uids; the allocation code is translated from /repo on every run and "
-              "proved (by decide) to be a single fetch_add(1)+1; uid flow into scope/install/change-prog proved on the model. What the "
+              "proved (by decide) to be a single fetch_add(k) with k >= 1 (what is added to the value read does not matter for uniqueness; that the first uid is libccp's marker 1 is C06's obligation); uid flow into scope/install/change-prog proved on the model. What the "
               "model cannot exhibit: hardware atomicity and memory ordering of AtomicU32 - exercised, not proved, by a 16-thread stress.")
 LEVEL_NOTE = "Trusts: Lean kernel; the translator (regex over the macro body, unknown shapes become an unprovable op); AtomicU32 semantics."
 TECHNIQUE = "Lean 4 invariant proof over all interleavings + translator from the Rust macro (obligation re-checked each run) + multi-threaded stress"
